@@ -68,6 +68,9 @@ def suites(tier: str, seed: int) -> List[Suite]:
     site.cases = SC.gen_site_cases("C15", seed, plan)
     # the compile cache (recipe_directory.py) must not make a page show a recipe as it was before an edit
     hist.cases = SC.gen_edit_history_cases(seed, 8 if tier == "quick" else 120)
+    # rebuild INTO THE SAME OUTPUT DIRECTORY after quantities were edited / prose deleted and with M or M + 1: content,
+    # scaling and menus of the edited tree (page oracle on the result + fresh-process comparison)
+    hist.cases += SC.gen_rebuild_history_cases(seed, 8 if tier == "quick" else 120, "C15")
     return [site, hist]
 
 
